@@ -188,3 +188,15 @@ def oracle(c):
             fails.append(Failure("oracle", PROP, f"after {instrs} instructions: {prob}", "toy:reference-mismatch"))
             break
     return fails
+
+
+# The counter lines of the performance-metrics TEXT are part of the model (`SimViews.metricsLines` / `toyMetricsLines`): what the
+# user reads is compared at the end of every case.
+_cases_nometrics = cases
+
+
+def cases(rng, tier):
+    for c in _cases_nometrics(rng, tier):
+        if any(l == "toy.snap" for l in c.lines):
+            c.lines = c.lines + ["toy.metrics"]          # at the end only: the oracles pair every call with the snapshot behind it
+        yield c
